@@ -29,7 +29,10 @@ INDIC = ['कुल', 'कल', 'कूल']
 NEAR = ['resumé', 'RESUME', 'resum', 'x', 'resumes', 'RESUMES', 'Resumer']
 BATCH = 24
 CUSTOM = {'RESUME': {'n': {'resume', 'résumé'}}, 'x': {None: {'san jose'}, 'v': {'Resume'}},
-          'resum': {}, 'resumes': {'v': {'resume'}, 'n': {'Resume'}}}
+          'resum': {}, 'resumes': {'v': {'resume'}, 'n': {'Resume'}},
+          # an empty set proposes no (pos, form) pair: alone it means "nothing proposed" (search the query
+          # itself), next to other proposals it contributes nothing
+          'resume': {'n': set()}, 'Resumer': {'v': {'resume'}, 'n': set()}, 'RESUMES': {None: set(), 'v': set()}}
 
 
 def custom_lemmatizer(form, pos=None):
@@ -45,6 +48,7 @@ def norm(s):
 def ref_find(words, kind, q, pos, normalizer_on, all_forms, lemmatizer):
     """words: list of dict(id, pos, forms=[lemma, extra?], sense, synset, sspos). -> set of ids"""
     cand = lemmatizer(q, pos) if lemmatizer else {}
+    cand = {p: fs for p, fs in cand.items() if fs}
     if not cand:
         cand = {pos: {q}}
 
